@@ -96,6 +96,13 @@ def emit_unit(uspec, log=None):
                 for q2, fl in ast.functions.items():
                     if strip_targs(q2) == qname:
                         fns = fns + fl
+            if not fns and uspec.aliases:
+                for q2, fl in ast.functions.items():
+                    qa = q2
+                    for pat, rep in uspec.aliases:
+                        qa = re.sub(pat, rep, qa)
+                    if qa == qname:
+                        fns = fns + fl
             fns = [f for f in fns if not f.get('_pattern')]
             if not fns:
                 raise Undecided('extraction-break', 'no definition of %s in the AST (renamed or removed?)' % qname)
@@ -181,12 +188,19 @@ def merge_instantiations(em, uspec):
     # short names
     rename = {}
     byq = {}
+    def aliased(q):
+        for pat, rep in uspec.aliases:
+            q = re.sub(pat, rep, q)
+        return q
     for c in em.fn_order:
         byq.setdefault(strip_targs(em.fn_meta[c]['qname']), []).append(c)
+        aq = aliased(em.fn_meta[c]['qname'])
+        if aq != em.fn_meta[c]['qname']:
+            byq.setdefault(aq, []).append(c)
     for e in uspec.emit:
         if len(e) > 2 and e[2]:
             k = 0
-            for c in byq.get(strip_targs(e[0]), []):
+            for c in (byq.get(e[0]) or byq.get(strip_targs(e[0]), [])):
                 if e[1] and not re.search(e[1], c):
                     continue
                 k += 1
@@ -273,7 +287,9 @@ def assemble(ub):
         L.append('enum { EC_OK = 0, %s };' % ', '.join('%s = %d' % (n, i + 1) for i, n in enumerate(em.ec_consts)))
     else:
         L.append('enum { EC_OK = 0 };')
-    L.append('char *g_buf; unsigned long g_n; long g_lo, g_hi; const char *svlit_tab[8]; long g_ffo_j;')
+    if em.lib_enums:
+        L.append('enum { %s };' % ', '.join('%s = %d' % (n, 1000 + i) for i, n in enumerate(em.lib_enums)))
+    L.append('char *g_buf; unsigned long g_n; long g_lo, g_hi; const char *svlit_tab[32]; long g_ffo_j;')
     L.append('#ifndef VERIF_CBMC')
     L.append('unsigned long model_pre_failures;')
     L.append('#endif')
@@ -282,6 +298,24 @@ def assemble(ub):
     for c in em.fn_order:
         L.append(em.fn_proto[c])
     L.append('void __cxx_global_init(void);')
+    # ghost event counters (DESIGN 4.4): every call of an opaque callee is counted
+    # and its scalar arguments are remembered; std::move(*this) is counted too
+    L.append('int g_moved_self;')
+    cnts, allg = ['g_moved_self'], ['g_moved_self']
+    for sname, (ret, atys) in em.stubs.items():
+        L.append('int g_cnt_%s;' % sname[6:])
+        cnts.append('g_cnt_%s' % sname[6:])
+        allg.append('g_cnt_%s' % sname[6:])
+        if ret.strip().endswith('*') and not (sname in us.functions and us.functions[sname].assume_only):
+            L.append('%s g_sink_%s;' % (ret.strip()[:-1].strip(), sname[6:]))
+            allg.append('g_sink_%s' % sname[6:])
+        for i, t in enumerate(atys):
+            tt = t.replace('/*in*/', '').strip()
+            if tt in ('int', 'unsigned int', 'unsigned char', 'unsigned short', 'short', 'long', 'unsigned long', '_Bool', 'ec_t', 'it_t', 'char', 'opq_t'):
+                L.append('%s g_arg_%s_%d;' % (tt, sname[6:], i))
+                allg.append('g_arg_%s_%d' % (sname[6:], i))
+    L.append('#define VERIF_COUNTERS_ZERO (%s)' % ' && '.join('%s == 0' % c for c in cnts))
+    L.append('#define VERIF_COUNTERS %s' % ', '.join(allg))
     # stubs (class 3): an assumed contract from the sidecar, else an
     # over-approximating body (nondeterministic result, every by-address
     # argument havocked)
@@ -304,6 +338,11 @@ def assemble(ub):
         if fs is not None and fs.assume_only:
             continue
         L.append('%s %s(%s) {' % (ret, sname, params))
+        L.append('  g_cnt_%s++;' % sname[6:])
+        for i, t in enumerate(atys):
+            tt = t.replace('/*in*/', '').strip()
+            if tt in ('int', 'unsigned int', 'unsigned char', 'unsigned short', 'short', 'long', 'unsigned long', '_Bool', 'ec_t', 'it_t', 'char', 'opq_t'):
+                L.append('  g_arg_%s_%d = a%d;' % (sname[6:], i, i))
         policy = None
         for rx, pol in us.callable_policy:
             if re.search(rx, sname):
@@ -335,7 +374,8 @@ def assemble(ub):
                 L.append('  { %s nd%d; *a%d = nd%d; }' % (t[:-1].strip(), i, i, i))
         if ret.strip() != 'void':
             if ret.strip().endswith('*'):
-                L.append('  static %s sink; %s nd; sink = nd; return &sink;' % (ret.strip()[:-1].strip(), ret.strip()[:-1].strip()))
+                # reference result: a ghost object of that type (listed in VERIF_COUNTERS)
+                L.append('  %s nd; g_sink_%s = nd; return &g_sink_%s;' % (ret.strip()[:-1].strip(), sname[6:], sname[6:]))
             else:
                 L.append('  %s r; return r;' % ret)
         L.append('}')
